@@ -916,28 +916,33 @@ class Messenger(Connection):
 
             # Verify TLS name bindings
             cert_der = sock_tls.getpeercert(True)
-            cert = x509.load_der_x509_certificate(cert_der, default_backend())
-            self._logger.debug('Peer certificate: %s', cert)
+            if cert_der is None:
+                # a peer which presented no certificate has no identifier
+                # to match, the policy below decides what that means
+                self._logger.warning('Peer presented no certificate')
+            else:
+                cert = x509.load_der_x509_certificate(cert_der, default_backend())
+                self._logger.debug('Peer certificate: %s', cert)
 
-            try:
-                ku_bits = cert.extensions.get_extension_for_oid(x509.oid.ExtensionOID.KEY_USAGE).value
-            except x509.ExtensionNotFound:
-                ku_bits = None
-            self._logger.debug('Peer KU: %s', ku_bits)
+                try:
+                    ku_bits = cert.extensions.get_extension_for_oid(x509.oid.ExtensionOID.KEY_USAGE).value
+                except x509.ExtensionNotFound:
+                    ku_bits = None
+                self._logger.debug('Peer KU: %s', ku_bits)
 
-            try:
-                eku_set = cert.extensions.get_extension_for_oid(x509.oid.ExtensionOID.EXTENDED_KEY_USAGE).value
-            except x509.ExtensionNotFound:
-                eku_set = None
-            self._logger.debug('Peer EKU: %s', eku_set)
-            # Example print(x509.ObjectIdentifier('1.3.6.1.5.5.7.3.1') in eku_set)
+                try:
+                    eku_set = cert.extensions.get_extension_for_oid(x509.oid.ExtensionOID.EXTENDED_KEY_USAGE).value
+                except x509.ExtensionNotFound:
+                    eku_set = None
+                self._logger.debug('Peer EKU: %s', eku_set)
+                # Example print(x509.ObjectIdentifier('1.3.6.1.5.5.7.3.1') in eku_set)
 
-            # Exact IPADDR-ID matching
-            authn_ipaddrid = match_id(peer_ipaddrid, cert, x509.IPAddress, self._logger, 'IPADDR-ID')
-            # Exact DNS-ID matching
-            authn_dnsid = match_id(peer_dnsid, cert, x509.DNSName, self._logger, 'DNS-ID')
-            # Exact NODE-ID matching
-            authn_nodeid = match_id(peer_nodeid, cert, x509.UniformResourceIdentifier, self._logger, 'NODE-ID')
+                # Exact IPADDR-ID matching
+                authn_ipaddrid = match_id(peer_ipaddrid, cert, x509.IPAddress, self._logger, 'IPADDR-ID')
+                # Exact DNS-ID matching
+                authn_dnsid = match_id(peer_dnsid, cert, x509.DNSName, self._logger, 'DNS-ID')
+                # Exact NODE-ID matching
+                authn_nodeid = match_id(peer_nodeid, cert, x509.UniformResourceIdentifier, self._logger, 'NODE-ID')
 
             any_fail = (peer_ipaddrid and authn_ipaddrid is False) or (peer_dnsid and authn_dnsid is False) or authn_nodeid is False
             # host authentication needs an identifier that actually matched
